@@ -5,7 +5,7 @@ VARIABLES tid, l
 tvars == <<vars, tid, l>>
 TInit == \E i \in 1..Len(Traces) : tid = i /\ l = 1 /\ InitCommon(Traces[i].conf)
 TStep(e) ==
-  CASE e.a = "Suggest" -> EvSuggest(e.t, e.c, e.keys, e.consts, e.types)
+  CASE e.a = "Suggest" -> EvSuggest(e.t, e.c, e.keys, e.consts, e.types, e.clone)
     [] e.a = "Fail"    -> EvFail(e.t)
     [] e.a = "None"    -> EvNone
     [] e.a = "Crash"   -> EvCrash
